@@ -414,6 +414,9 @@ func checkC08(c *Ctx) {
 	c.Floor("C08.R1", 9)
 	c.Floor("C08.R2", 4)
 	c.Floor("C08.R3", 5)
+	c.Rule("C08.R6", "angle-normalising helpers of package proj (found by behaviour among the float→float functions the projection constructors reach: identity near zero, not further out), interpreted with a symbolic argument placed inside the principal interval and up to one period outside it on either side: the result is the argument plus a whole number of periods (2π for longitudes, π for latitudes) and lies within half a period of zero")
+	c08wrap(c)
+	c.Floor("C08.R6", 1)
 	c.Floor("C08.R4", 4)
 }
 
